@@ -67,7 +67,8 @@ where
         let mut remaining_to_read = self.size;
 
         while remaining_to_read > 0 {
-            let mut buf = vec![0; remaining_to_read];
+            // discard through a bounded buffer: the declared length is chosen by the client
+            let mut buf = vec![0; remaining_to_read.min(8192)];
 
             match self.reader.read(&mut buf) {
                 Err(e) => {
